@@ -4,7 +4,9 @@ package c12
 import (
 	stdecdsa "crypto/ecdsa"
 	"crypto/elliptic"
+	"errors"
 	"fmt"
+	"io"
 	"math/big"
 	"testing"
 
@@ -82,6 +84,24 @@ func key(t *rapid.T, c elliptic.Curve, b []byte) *patecdsa.PrivateKey {
 	return k
 }
 
+// failingReader hands out a few bytes and then fails.
+type failingReader struct {
+	src  io.Reader
+	left int
+}
+
+func (f *failingReader) Read(p []byte) (int, error) {
+	if f.left <= 0 {
+		return 0, errors.New("entropy source failed")
+	}
+	if len(p) > f.left {
+		p = p[:f.left]
+	}
+	n, err := f.src.Read(p)
+	f.left -= n
+	return n, err
+}
+
 func samePoint(a *patecdsa.PublicKey, x, y *big.Int) bool { return a.X.Cmp(x) == 0 && a.Y.Cmp(y) == 0 }
 
 func run(t *testing.T, c elliptic.Curve) {
@@ -101,6 +121,14 @@ func run(t *testing.T, c elliptic.Curve) {
 		ctx := context(t, "ctx")
 		digest := gen.Digest(t, "digest")
 		bk1, bk2 := key(t, c, b1), key(t, c, b2)
+		if gen.Uniform(t, 5, "blindKeyObjectOfAnotherCurve") == 0 {
+			// the blind is a scalar in a key OBJECT; the curve of the operation is the curve ARGUMENT. An object made by
+			// CreateKey for another curve carries the same scalar and must give the same results.
+			others := []elliptic.Curve{elliptic.P224(), elliptic.P256(), elliptic.P384(), elliptic.P521()}
+			oc := gen.Pick(t, others, "otherCurve")
+			bk1, bk2 = key(t, oc, b1), key(t, oc, b2)
+			s.Class("blind-key-object-of-another-curve")
+		}
 		D1, D2 := new(big.Int).SetBytes(b1), new(big.Int).SetBytes(b2)
 		s.Eval()
 		s.Nontrivial([]byte(name), dB, b1, ctx, digest)
@@ -129,6 +157,26 @@ func run(t *testing.T, c elliptic.Curve) {
 				fail("blind-nocontext", "BlindPublicKey differs from BlindPublicKeyWithContext(empty)")
 				return
 			}
+		}
+		// 1b. in a third of the cases a signing call whose entropy source FAILS comes first: whatever it returns, it must
+		// leave the caller's key objects as they were (the following steps use them)
+		if gen.Uniform(t, 3, "failingEntropyFirst") == 0 {
+			dBefore, bBefore := new(big.Int).Set(sk.D), new(big.Int).Set(bk1.D)
+			xBefore, yBefore := new(big.Int).Set(sk.X), new(big.Int).Set(sk.Y)
+			limit := gen.Pick(t, []int{0, 1, 8, 31, 47}, "entropyBytesBeforeFailure")
+			var ferr error
+			o := rt.GuardLite(func() {
+				_, _, ferr = patecdsa.BlindKeySignWithContext(&failingReader{src: rt.NewDRBG([]byte{byte(limit)}), left: limit}, sk, bk1, digest, ctx)
+			})
+			if o.Panic != nil {
+				fail("entropy-fault-panic", "BlindKeySignWithContext panicked when its entropy source failed after %d bytes: %v", limit, o.Panic)
+				return
+			}
+			if sk.D.Cmp(dBefore) != 0 || bk1.D.Cmp(bBefore) != 0 || sk.X.Cmp(xBefore) != 0 || sk.Y.Cmp(yBefore) != 0 {
+				fail("entropy-fault-key-changed", "after a blind signing call whose entropy source failed (err=%v) the caller's signing key or blind key object holds another value than before", ferr)
+				return
+			}
+			s.Class("after-entropy-fault")
 		}
 		// 2. signature with the blinded signing key
 		r, sv, err := patecdsa.BlindKeySignWithContext(rt.NewDRBG(gen.Seed().Draw(t, "entropy")), sk, bk1, digest, ctx)
